@@ -12,7 +12,7 @@ use crate::probe::{CallInfo, Policy, Probe, StepRec};
 use crate::statejson::{self, ShapeSpec};
 
 pub const TITLE: &str = "No Monte-Carlo move is larger than the configured maximum step";
-pub const RULE: &str = "part scripted: synthetic states with 2..8 parameters whose ranges are log-uniform between 1e-3 and 1e3 wide, max_step_size 1e-4..1, 1..30 inner loops, any kT; the score script fixes the rejection pattern of every loop (0%, 25%, 75%, 100% or a generated bit pattern: accepted proposals get an ever increasing score, rejected ones no score), so the step-size adaptation sees every rejection history. part real: real hard and Lennard-Jones states of all groups with the package's own ranges. Oracle: for every proposal whose base state is identified from the trace: at most one coordinate differs and |proposal - base| <= max_step_size * (max - min)/2 * (1+1e-12) (clamping can only shorten a move; the distance is taken to the nearest of the candidate bases and of all values that coordinate has held earlier in the run, so a move is never over-reported and a restore to an older value — C06's subject — is not mistaken for a long move). Non-trivial = a judged step in loop >= 2 that follows a loop with fewer than 100% rejections; distinct by hash of the case.";
+pub const RULE: &str = "part scripted: synthetic states with 2..8 parameters whose ranges are log-uniform between 1e-3 and 1e3 wide, max_step_size 0 and 1e-7..1, 1..30 inner loops, any kT; the score script fixes the rejection pattern of every loop (0%, 25%, 75%, 100% or a generated bit pattern: accepted proposals get an ever increasing score, rejected ones no score), so the step-size adaptation sees every rejection history. part real: real hard and Lennard-Jones states of all groups with the package's own ranges. Oracle: for every proposal whose base state is identified from the trace: at most one coordinate differs and |proposal - base| <= max_step_size * (max - min)/2 * (1+1e-12) (clamping can only shorten a move; the distance is taken to the nearest of the candidate bases and of all values that coordinate has held earlier in the run, so a move is never over-reported and a restore to an older value — C06's subject — is not mistaken for a long move). Non-trivial = a judged step in loop >= 2 that follows a loop with fewer than 100% rejections; distinct by hash of the case.";
 
 pub fn assumptions() -> Vec<&'static str> {
     vec!["real-state ranges are the statement's: length [0.01, start], ratio [0.1, start], angle [pi/6, pi/2], x,y [-1/2,1/2], orientation [0, 2pi]; parameters are read in the order of generate_basis()"]
@@ -69,7 +69,7 @@ fn script_strat(_: &Ctx) -> BoxedStrategy<StepCase> {
                 steps_inner(6000, 30),
                 prop_oneof![2 => Just(0.), 1 => (-3.0..1.0f64).prop_map(|e| 10f64.powf(e))],
                 prop_oneof![Just(None), Just(Some(0.)), Just(Some(0.5))],
-                prop_oneof![3 => (-4.0..0.0f64).prop_map(|e| 10f64.powf(e)), 1 => Just(1.0), 1 => Just(0.01)],
+                prop_oneof![4 => (-7.0..0.0f64).prop_map(|e| 10f64.powf(e)), 1 => Just(1.0), 1 => Just(0.01), 1 => Just(0.), 1 => Just(5.0e-5)],
                 any::<u64>(),
                 proptest::collection::vec((-100.0..100.0f64, (-3.0..3.0f64).prop_map(|e| 10f64.powf(e))), n),
                 proptest::collection::vec(0.0..=1.0f64, n),
